@@ -77,6 +77,13 @@ class Loader(object):
         out['leaked'] = seam.close_leaked()
         if fobj is not None:
             out['caller_file_closed_by_reader'] = fobj.closed
+            if not fobj.closed and out.get('kind') == 'ok':
+                # the caller's handle is still his: a second load through it must give the same events
+                try:
+                    again = self.F.io.FCSFile(fobj)
+                    out['second_load_same_handle'] = bool(np.array_equal(np.asarray(again.data), out['data']))
+                except Exception as e:
+                    out['second_load_same_handle'] = 'exc:' + type(e).__name__
             fobj.close()
         return out
 
@@ -144,12 +151,14 @@ class C01Machine(Machine):
                 if spec['byteord'] == '':
                     spec['byteord'] = '1,2,3'
             return {'arm': 'unsupported', 'kind': kind, 'spec': spec}
-        return {'arm': 'intact', 'spec': fcsgen.gen_spec(rng), 'reload': rng.chance(0.3), 'fileobj': rng.chance(0.15)}
+        return {'arm': 'intact', 'spec': fcsgen.gen_spec(rng, bulk_p=0.0015), 'reload': rng.chance(0.3),
+                'fileobj': rng.chance(0.15)}
 
     def summarise(self, case):
         s = dict(case['spec'])
         s['events'] = s['events'][:2] + (['... %d rows' % len(s['events'])] if len(s['events']) > 2 else [])
-        return {'arm': case['arm'], 'kind': case.get('kind'), 'spec': s}
+        return {'arm': case['arm'], 'kind': case.get('kind'), 'spec': s, 'reload': case.get('reload'),
+                'fileobj': case.get('fileobj')}
 
     def execute(self, case):
         log = OpLog()
@@ -174,16 +183,25 @@ class C01Machine(Machine):
             else:
                 T = info['truth']
                 try:
+                    if spec.get('bulk'):
+                        out['probes']['large_file_%s' % spec['bulk'].get('kind')] = 1
+                        raise fcs_ref.RefDontCare('reference loader not run on large files (pure-python decoding)')
                     r = fcs_ref.ref_load(b)
                     if not (data_equal(r['data'], T['data']) and r['text'] == T['text']
                             and r['analysis'] == T['analysis']):
                         raise RuntimeError('reference loader disagrees with writer ground truth')
                 except fcs_ref.RefDontCare:
-                    out['probes']['ref_dontcare'] = 1
+                    if not spec.get('bulk'):
+                        out['probes']['ref_dontcare'] = 1
                 for cls in ('FCSFile', 'FCSData'):
                     o = ld.load('f.fcs', cls, fileobj=bool(case.get('fileobj')))
                     if case.get('fileobj'):
                         out['probes']['loaded_from_open_file_object'] = 1
+                        if o.get('caller_file_closed_by_reader') or o.get('second_load_same_handle') not in (None, True):
+                            out['violations'].append(violation(
+                                'C01/values', 'fileobj/handle-reuse/%s' % cls,
+                                'reader closed the caller\'s file object (%s) or a second load through the same handle '
+                                'differs (%s)' % (o.get('caller_file_closed_by_reader'), o.get('second_load_same_handle'))))
                     out['evals'] += 1
                     log.add('load', cls, o['kind'], o.get('exc'),
                             arr_fp(o['data']) if o['kind'] == 'ok' else None, len(o['io']), o['leaked'])
@@ -196,7 +214,8 @@ class C01Machine(Machine):
                         got = np.asarray(o['data'])
                         det = 'shape %s vs %s' % (got.shape, T['data'].shape)
                         if got.shape == T['data'].shape and got.size:
-                            bad = np.argwhere(got.astype(object) != T['data'].astype(object))
+                            bad = np.argwhere(got != T['data']) if got.size > 5000 else \
+                                np.argwhere(got.astype(object) != T['data'].astype(object))
                             if len(bad):
                                 i, j = bad[0]
                                 det = 'first difference at event %d param %d: got %r expected %r (width %s range %s)' % (
@@ -232,7 +251,7 @@ class C01Machine(Machine):
                                 'C01/values', 'reload/%s/%s' % (cls, lc),
                                 'second load of the unchanged file after the first sample was modified in memory differs from the file'))
                     out['probes']['reload_after_in_memory_modification'] = 1
-                if len(spec['events']) >= 1:
+                if fcs_ref.n_events(spec) >= 1:
                     rc = sorted({('full' if int(r) == 1 << w else 'pow2' if int(r) & (int(r) - 1) == 0 else 'odd')
                                  for r, w in zip(spec['ranges'], spec['widths'])})
                     out['sigs'].add('%s/%s/%s' % (lc, ''.join(s[0] for s in spec['order']), '+'.join(rc)))
@@ -240,7 +259,7 @@ class C01Machine(Machine):
                     out['probes']['mixed_width_path'] = 1
                 if not spec.get('header_data', True):
                     out['probes']['text_only_offsets'] = 1
-                if len(spec['events']) == 0:
+                if fcs_ref.n_events(spec) == 0:
                     out['probes']['zero_events'] = 1
         finally:
             dk.teardown()
@@ -250,6 +269,8 @@ class C01Machine(Machine):
 
     def shrink_candidates(self, case):
         spec = case['spec']
+        if spec.get('bulk'):
+            return
         for ev in list_reductions(spec['events'], 0):
             c = copy.deepcopy(case)
             c['spec']['events'] = ev
@@ -307,6 +328,17 @@ class C16Machine(Machine):
         return {'runs': 250000, 'budget_s': 1500, 'batch': 40}
 
     def generate(self, rng, tier, index):
+        if rng.chance(0.004):
+            # a LARGE file interrupted inside or right after DATA (a handful of crash points, not all of them)
+            spec = fcsgen.gen_spec(rng, small=True, n_params=2, keywords=False)
+            fcsgen.make_bulk(rng, spec)
+            spec['pads'] = []
+            spec['end_plus_one'] = False
+            b, info = fcs_ref.build(spec)
+            a, e = info['seg']['DATA']
+            cuts = sorted({a + 1, a + 4097, (a + e) // 2, e - 7, e, e + 1, len(b) - 1, len(b)} |
+                          {rng.randint(a, e) for _ in range(3)})
+            return {'spec': spec, 'fields': [], 'cuts': [c for c in cuts if 0 <= c <= len(b)], 'chunks': [1 << 20]}
         spec = fcsgen.gen_spec(rng, small=True)
         b, info = fcs_ref.build(spec)
         arm = rng.wchoice([('truncate_all', 42), ('field', 28), ('field+truncate', 12), ('field+field', 10),
@@ -352,7 +384,9 @@ class C16Machine(Machine):
         G = {'data': info0['truth']['data'], 'text': info['truth']['text'],
              'analysis': info['truth']['analysis']}
         lc = layout_class(spec0)
-        nontrivial = len(spec0['events']) >= 1
+        nontrivial = fcs_ref.n_events(spec0) >= 1
+        if spec0.get('bulk'):
+            bump(probes, 'large_file_runs')
         dk = simdisk.SimDisk('c16')
         try:
             ld = Loader(dk)
@@ -445,6 +479,13 @@ class C16Machine(Machine):
         return out
 
     def shrink_candidates(self, case):
+        if case['spec'].get('bulk'):
+            if isinstance(case['cuts'], list) and len(case['cuts']) > 1:
+                for cl in list_reductions(case['cuts'], 1):
+                    c = copy.deepcopy(case)
+                    c['cuts'] = cl
+                    yield c
+            return
         # 1. a single cut
         if case['cuts'] == 'all':
             b, _ = fcs_ref.build(fcsgen.apply_field_faults(case['spec'], case['fields']))
